@@ -172,6 +172,7 @@ def run_script(methods_by_name: dict, pair_factory, server_proto, impl, client_p
                 m = methods_by_name[call["m"]]
                 state.update(raise_in_log=(call["ops"][:1] == ["L"]), quiet=False, nlogs=0, x=x, own=True, pending=[])
                 arg = str(x) if m["badp"] else x
+                obs.append(["call"])
                 try:
                     if m["n"] == "__describe__":
                         from vgi_rpc.introspect import introspect
